@@ -220,3 +220,21 @@ Proof.
   assert (E : r * r + z * z = x * x + y * y + z * z) by (unfold r; rewrite sqrt_sqrt; nra).
   rewrite E in Hr, Hz. fold r in Hx, Hy. rewrite <- Hr, <- Hz, <- Hx, <- Hy. reflexivity.
 Qed.
+
+(* ------------------------------------------------------------ angle units: x * RAD2DEG, x * DEG2RAD with the double constants *)
+Lemma c_rad2deg_close : Rabs (c_rad2deg R_ops * (PI / 180) - 1) <= / 9007199254740992.
+Proof. unfold c_rad2deg. cbn [ofD R_ops]. interval with (i_prec 80). Qed.
+Lemma c_deg2rad_close : Rabs (c_deg2rad R_ops * (180 / PI) - 1) <= / 9007199254740992.
+Proof. unfold c_deg2rad. cbn [ofD R_ops]. interval with (i_prec 80). Qed.
+Theorem rad2deg_spec (x : R) : Rabs (real_rad2deg R_ops x - x * (180 / PI)) <= / 9007199254740992 * Rabs (x * (180 / PI)).
+Proof.
+  unfold real_rad2deg. uo. pose proof PI_RGT_0.
+  replace (x * c_rad2deg R_ops - x * (180 / PI)) with (x * (180 / PI) * (c_rad2deg R_ops * (PI / 180) - 1)) by (field; lra).
+  rewrite Rabs_mult, Rmult_comm. apply Rmult_le_compat_r; [apply Rabs_pos | apply c_rad2deg_close].
+Qed.
+Theorem deg2rad_spec (x : R) : Rabs (real_deg2rad R_ops x - x * (PI / 180)) <= / 9007199254740992 * Rabs (x * (PI / 180)).
+Proof.
+  unfold real_deg2rad. uo. pose proof PI_RGT_0.
+  replace (x * c_deg2rad R_ops - x * (PI / 180)) with (x * (PI / 180) * (c_deg2rad R_ops * (180 / PI) - 1)) by (field; lra).
+  rewrite Rabs_mult, Rmult_comm. apply Rmult_le_compat_r; [apply Rabs_pos | apply c_deg2rad_close].
+Qed.
